@@ -1,0 +1,37 @@
+//go:build verif
+// +build verif
+
+package parse
+
+// Observation point for the /verif harness (build tag "verif" only).
+
+// VerifLex, if set, receives lexer/parser protocol events. lexer identifies
+// the scanner instance. Events:
+//   "step"   a state function is about to run (a = input position)
+//   "emit"   an item is about to be sent (a = item type, b = position)
+//   "close"  the item channel is about to be closed
+//   "next"   the parser received an item from the channel (a = item type)
+//   "return" a parse entry point returns (a = 1 if with an error)
+var VerifLex func(ev string, lexer interface{}, a, b int)
+
+// VerifItemNames exposes the numeric values of the item types the harness
+// needs to interpret events.
+var VerifItemNames = map[string]int{
+	"invalid": int(itemInvalid), "eof": int(itemEOF), "error": int(itemError),
+}
+
+func verifLex(ev string, l *lexer, a, b int) {
+	if f := VerifLex; f != nil {
+		f(ev, l, a, b)
+	}
+}
+
+func verifParseReturn(l *lexer, errp *error) {
+	if f := VerifLex; f != nil {
+		var e = 0
+		if errp != nil && *errp != nil {
+			e = 1
+		}
+		f("return", l, e, 0)
+	}
+}
